@@ -84,6 +84,26 @@ def _or_getattr_alternative(node, mod):
         h = has_attr(test)
         if h is not None and h[1] != taken:
             return h[0]
+        # v = getattr(lib, "alt", None); if not v / if v is None: <node>
+        t_, pol_ = test, taken
+        while isinstance(t_, ast.UnaryOp) and isinstance(t_.op, ast.Not):
+            t_, pol_ = t_.operand, not pol_
+        if isinstance(t_, ast.Compare) and len(t_.ops) == 1 and isinstance(t_.comparators[0], ast.Constant) and t_.comparators[0].value is None:
+            if isinstance(t_.ops[0], ast.Is):
+                t_, pol_ = t_.left, not pol_
+            elif isinstance(t_.ops[0], ast.IsNot):
+                t_ = t_.left
+        if isinstance(t_, ast.Name) and not pol_:
+            # reached when the name is falsy / None: what was it bound to?
+            fn_ = st
+            while fn_ is not None and not isinstance(fn_, (ast.FunctionDef, ast.AsyncFunctionDef)):
+                fn_ = parent(fn_)
+            if fn_ is not None:
+                for a_ in ast.walk(fn_):
+                    if isinstance(a_, ast.Assign) and len(a_.targets) == 1 and isinstance(a_.targets[0], ast.Name) and a_.targets[0].id == t_.id \
+                            and isinstance(a_.value, ast.Call) and dotted(a_.value.func) == "getattr" and len(a_.value.args) >= 3 \
+                            and isinstance(a_.value.args[0], ast.Name) and isinstance(a_.value.args[1], ast.Constant) and mod.imports.get(a_.value.args[0].id):
+                        return "%s.%s" % (mod.imports[a_.value.args[0].id], a_.value.args[1].value)
     child, q = node, parent(node)
     while q is not None and not isinstance(q, ast.stmt):
         if isinstance(q, ast.IfExp):
@@ -220,25 +240,40 @@ def rule_crh(ctx):
         if isinstance(st, ast.Assign) and isinstance(st.targets[0], ast.Name):
             A.setdefault(st.targets[0].id, []).append(st)
     rets = [s for s in flow.stmts if isinstance(s, ast.Return)]
-    r = flow.resolve(rets[-1].value, at=rets[-1], depth=1) if rets else None
+    if not rets:
+        raise AnalysisError("column_relative_humidity: no return")
+    # names of arrays that are allocated and then filled (kept symbolic: their content is decided by the level loop below)
+    filled = tuple(n_ for n_, sts in A.items() if any(isinstance(st.value, ast.Call) and (dotted(st.value.func) or "").split(".")[-1] in ("zeros", "empty", "zeros_like", "empty_like")
+                                                      for st in sts))
+    stop_ = (qn, pn, tn, axn) + filled
+    r = flow.resolve(rets[-1].value, at=rets[-1], depth=4, stop=stop_)
+    from ..calls import bind_args
+    iwv = ctx.func(ATM, "integrate_water_vapor")
     ok_ratio = False
-    fact = norm(r) if r is not None else None
-    num = den = None
-    if isinstance(r, ast.BinOp) and isinstance(r.op, ast.Div):
-        num, den = r.left, r.right
-        n_, d_ = flow.resolve(num, at=rets[-1], depth=1), flow.resolve(den, at=rets[-1], depth=1)
-        nt, dt = norm(n_).replace(" ", ""), norm(d_).replace(" ", "")
-        ok_ratio = nt == "integrate_water_vapor(vmr,%s,axis=%s)" % (pn, axn) and dt == "integrate_water_vapor(vmrs,%s,axis=%s)" % (pn, axn)
-        fact = "%s / %s" % (nt, dt)
-    ctx.ob("column_relative_humidity.ratio", ok_ratio, "crh = %s" % fact, "IWV(vmr, p, axis) / IWV(vmr_s, p, axis): same pressure and axis in both integrals", node=rets[-1] if rets else f.node, func=f)
-    v1 = A.get("vmr", [None])[-1]
-    vs = A.get("vmrs", [None])[-1]
-    es = A.get("es", [None])[0]
-    ok_src = v1 is not None and norm(v1.value) == "specific_humidity2vmr(%s)" % qn and vs is not None \
-        and isinstance(vs.value, ast.Call) and dotted(vs.value.func) == "specific_humidity2vmr" and len(vs.value.args) == 1 \
-        and es is not None and norm(es.value) == "e_eq_mixed_mk(%s)" % tn
-    ctx.ob("column_relative_humidity.sources", ok_src, "vmr = %s; vmrs = %s; es = %s" % tuple(norm(s.value) if s else None for s in (v1, vs, es)),
-           "vmr(q), vmr(q_s), e_s from the MIXED-phase saturation pressure of t", node=v1 or f.node, func=f)
+    fact = norm(r)
+    qs_arg = None
+    ok_src_num = False
+    if isinstance(r, ast.BinOp) and isinstance(r.op, ast.Div) and all(isinstance(x_, ast.Call) and dotted(x_.func) == "integrate_water_vapor" for x_ in (r.left, r.right)):
+        bn, bd = bind_args(r.left, iwv), bind_args(r.right, iwv)
+        same = all(norm(bn.get(k_)) == norm(bd.get(k_)) for k_ in iwv.params[1:] if bn.get(k_) is not None or bd.get(k_) is not None)
+        ok_ratio = same and norm(bn.get(iwv.params[1])) == pn and norm(bn.get("axis")) == axn and norm(bn.get("T")) == "None" and norm(bn.get("z")) == "None"
+        vn, vd = bn.get(iwv.params[0]), bd.get(iwv.params[0])
+        ok_src_num = norm(vn) == "specific_humidity2vmr(%s)" % qn
+        if isinstance(vd, ast.Call) and dotted(vd.func) == "specific_humidity2vmr" and len(vd.args) == 1:
+            base_ = vd.args[0]
+            while isinstance(base_, ast.Call) and isinstance(base_.func, ast.Attribute) and base_.func.attr in ("swapaxes", "transpose", "reshape", "view"):
+                base_ = base_.func.value        # a view of the filled array
+            if isinstance(base_, ast.Name):
+                qs_arg = base_
+        fact = "%s / %s" % (norm(r.left).replace(" ", ""), norm(r.right).replace(" ", ""))
+    else:
+        raise AnalysisError("column_relative_humidity: the result %s is not a ratio of two integrate_water_vapor(...) calls" % norm(r)[:100])
+    ctx.ob("column_relative_humidity.ratio", ok_ratio, "crh = %s" % fact, "IWV(vmr, p, axis) / IWV(vmr_s, p, axis): same pressure and axis in both integrals", node=rets[-1], func=f)
+    es = [st for sts in A.values() for st in sts if isinstance(st.value, ast.Call) and (dotted(st.value.func) or "").startswith("e_eq_")]
+    ok_src = ok_src_num and qs_arg is not None and len(es) == 1 and norm(es[0].value) == "e_eq_mixed_mk(%s)" % tn
+    ctx.ob("column_relative_humidity.sources", ok_src, "numerator vmr(q): %s; denominator vmr of %s; es = %s" % (ok_src_num, norm(qs_arg) if qs_arg is not None else None, [norm(e_.value) for e_ in es]),
+           "vmr(q), vmr(q_s), e_s from the MIXED-phase saturation pressure of t", node=rets[-1], func=f)
+    vs = None
     loops = [st for st in flow.stmts if isinstance(st, ast.For)]
     ok_fill = False
     bound = None
@@ -258,8 +293,8 @@ def rule_crh(ctx):
                 a0 = eb[a0.id]                       # `for i, e in enumerate(es)`: e is es[i]
                 iv = next((k_ for k_, v_ in eb.items() if norm(v_) == "_i"), iv)
                 a0 = ast.Subscript(value=a0.value, slice=ast.Name(id=iv, ctx=ast.Load()), ctx=ast.Load())
-            if isinstance(a0, ast.Subscript) and isinstance(a0.value, ast.Name) and isinstance(tgt0, ast.Subscript) and isinstance(tgt0.value, ast.Name):
-                esname = a0.value.id
+            if isinstance(a0, ast.Subscript) and isinstance(tgt0, ast.Subscript) and isinstance(tgt0.value, ast.Name):
+                esname = a0.value.id if isinstance(a0.value, ast.Name) else a0.value          # a name, or the expression iterated over
                 ok_fill = norm(a0.slice) == iv and norm(tgt0.slice) == iv and norm(a1) == "%s[%s]" % (pn, iv)
                 # the level-wise input is the saturation pressure, the output is what becomes q_s
                 src = flow.resolve(ast.Name(id=esname, ctx=ast.Load()), at=lp, depth=1)
@@ -268,8 +303,8 @@ def rule_crh(ctx):
         rc = lp.iter
         if isinstance(rc, ast.Call) and dotted(rc.func) == "range":
             bound = rc.args[-1] if len(rc.args) <= 2 else None
-        elif isinstance(rc, ast.Call) and dotted(rc.func) == "enumerate" and len(rc.args) == 1 and norm(rc.args[0]) == esname:
-            bound = ast.parse("len(%s)" % esname, mode="eval").body          # one pass per element along the first axis
+        elif isinstance(rc, ast.Call) and dotted(rc.func) == "enumerate" and len(rc.args) == 1 and norm(rc.args[0]) == (esname if isinstance(esname, str) else norm(esname)):
+            bound = ast.parse("len(%s)" % norm(rc.args[0]), mode="eval").body          # one pass per element along the first axis
     ctx.ob("column_relative_humidity.levelwise", ok_fill, "loop body: %s" % ([norm(s) for s in loops[0].body] if loops else None),
            "qs[i] = water_vapor_pressure2specific_humidity(es[i], p[i]) for every level i", node=loops[0] if loops else f.node, func=f)
     # shape model of the loop bound
@@ -284,7 +319,8 @@ def rule_crh(ctx):
     ctx.models.append({"rule": "C14.crh", "cases": 4, "domain": "(ndim, axis) in (1,0),(2,0),(2,1),(3,2)", "exhaustive": False})
     # what is converted to vmr_s is the array filled by the level loop
     tname = loops[0].body[0].targets[0].value.id
-    vs_arg = vs.value.args[0] if vs is not None and isinstance(vs.value, ast.Call) and vs.value.args else None
+    vs_arg = qs_arg
+    vs = rets[-1]
     feeds = False
     if isinstance(vs_arg, ast.Name):
         feeds = vs_arg.id == tname or any(d_ != "param" and any(isinstance(n_, ast.Name) and n_.id == tname for n_ in ast.walk(d_.value))
@@ -295,7 +331,7 @@ def rule_crh(ctx):
                 if d_ != "param" and hasattr(d_, "value") and isinstance(d_.value, ast.Call) and isinstance(d_.value.func, ast.Attribute) \
                         and d_.value.func.attr in ("swapaxes", "transpose", "view", "reshape") and norm(d_.value.func.value) == vs_arg.id:
                     feeds = True
-    ctx.ob("column_relative_humidity.qs_used", feeds, "vmrs = %s; level loop fills %s" % (norm(vs.value) if vs is not None else None, tname),
+    ctx.ob("column_relative_humidity.qs_used", feeds, "saturation vmr from %s; level loop fills %s" % (norm(vs_arg) if vs_arg is not None else None, tname),
            "the saturation vmr is computed from the level-wise q_s", node=vs or f.node, func=f)
     ctx.ob("column_relative_humidity.levels", not bad, "loop bound %s; mismatches: %s" % (norm(bound), bad or "none"),
            "the loop runs over exactly the levels along `axis` (es.shape[axis]), the axis that was swapped to the front", node=loops[0], func=f,
@@ -379,7 +415,7 @@ def _shape_model(f, loop, bound, ndim, axis, axn, esname="es"):
         env[p_] = ("arr", ident)
     run(f.body)
     b = ev(bound)
-    e = env.get(esname, ("unknown",))
+    e = env.get(esname, ("unknown",)) if isinstance(esname, str) else ev(esname)
     first = e[1][0] if e[0] == "arr" and e[1] else None
     got = b[1] if b[0] == "size" else str(b)
     return got, axis, first
@@ -476,18 +512,37 @@ def rule_isa(ctx):
     ctx.ob("standard_atmosphere.monotone", mono, "h %s, p %s" % ("increasing" if all(a < b for a, b in zip(h, h[1:])) else "NOT increasing",
                                                                  "decreasing" if all(a > b for a, b in zip(p, p[1:])) else "NOT decreasing"),
            "heights strictly increase, pressures strictly decrease and are positive (interp1d over log p is well defined)", node=f.node, func=f)
-    arm = None
-    for st in walk_no_nested(f.node):
-        if isinstance(st, ast.If) and "pressure" in norm(st.test):
-            arm = st
-    ok = False
-    fact = None
-    if arm is not None:
-        body = {norm(s.targets[0]): norm(s.value) for s in arm.body if isinstance(s, ast.Assign)}
-        fact = body
-        ok = body.get("z_ref") == "np.log(p)" and body.get(f.params[0]) == "np.log(%s)" % f.params[0]
-    ctx.ob("standard_atmosphere.pressure_branch", ok, "pressure branch: %s" % fact, "z_ref = log(p table) and z = log(z): both sides of the interpolation in log-pressure",
-           node=arm or f.node, func=f)
+    # the interpolation interp1d(X, T)(Z): in pressure coordinates both X and Z are logarithms, in height coordinates neither
+    flow = Flow(f)
+    ip = [c for c in calls_in(f.node, "interp1d")]
+    if len(ip) != 1 or len(ip[0].args) < 2:
+        raise AnalysisError("standard_atmosphere: interp1d(x, y) call not found")
+    outer = parent(ip[0])
+    zarg = None
+    if isinstance(outer, ast.Call) and outer.func is ip[0] and outer.args:
+        zarg, at_ = outer.args[0], outer
+    else:
+        st_ = enclosing_stmt(ip[0])
+        if isinstance(st_, ast.Assign) and isinstance(st_.targets[0], ast.Name):
+            calls_ = [c for c in calls_in(f.node) if isinstance(c.func, ast.Name) and c.func.id == st_.targets[0].id and c.args]
+            if len(calls_) == 1:
+                zarg, at_ = calls_[0].args[0], calls_[0]
+    if zarg is None:
+        raise AnalysisError("standard_atmosphere: the evaluation point of the interpolator was not found")
+    cn = f.params[1]
+    got = {}
+    for mode in ("pressure", "height"):
+        assume = {}
+        for m2 in ("pressure", "height"):
+            for q_ in ("'", '"'):
+                assume["%s == %s%s%s" % (cn, q_, m2, q_)] = (m2 == mode)
+        got[mode] = (norm(flow.resolve_under(ip[0].args[0], assume, at=ip[0], stop=(f.params[0], "p", "h"))).replace(" ", ""),
+                     norm(flow.resolve_under(zarg, assume, at=at_, stop=("p", "h"))).replace(" ", ""))
+    z0 = f.params[0]
+    ok = got["pressure"] == ("np.log(p)", "np.log(%s)" % z0) and got["height"] == ("h", z0)
+    ctx.ob("standard_atmosphere.pressure_branch", ok, "pressure: interp1d(%s, ..)(%s); height: interp1d(%s, ..)(%s)" % (got["pressure"] + got["height"]),
+           "z_ref = log(p table) and z = log(z): both sides of the interpolation in log-pressure; plain heights otherwise",
+           node=ip[0], func=f)
 
 
 def run(ctx):
